@@ -93,12 +93,21 @@ class World:
             cls = type('SMod', (mix, C.Module), ns)
         else:
             cls = type('SMod', (C.Module,), ns)
-        node = self.node_for({'s': {'cls': cls, 'description': 'x'}})
+        # the configuration may hide one side of the link from the clients (export=False): the link holds all the same
+        hidden = None
+        scfg = {'cls': cls, 'description': 'x'}
+        if rng.random() < 0.25:
+            hidden = 'ctrl' if combined or rng.random() < 0.3 else 'm_' + rng.choice(members)
+            scfg[hidden] = {'export': False}
+        node = self.node_for({'s': scfg})
         m = node.secnode.modules['s']
         conn = self.nodes.Conn()
         node.dispatcher.add_connection(conn)
         # (the class shape is not part of the mechanism keys: where the methods are defined must not matter)
         layout = f'{"combined" if combined else "separate"}{"-ro" if readonly else ""}'
+        if hidden:
+            layout += '+hidden-struct' if hidden == 'ctrl' else '+hidden-member'
+            r.count('struct_sequences_with_a_hidden_side')
         if inherited:
             r.count('struct_sequences_with_inherited_access_methods')
         ops = []
@@ -118,6 +127,14 @@ class World:
                 # driver-side assignments are the mechanism of listed findings; while nothing is judged (after a fault)
                 # they would be blamed on the re-synchronising read
                 continue
+            if hidden:
+                # (what is hidden can not be reached over the wire; the driver-side assignments of the listed findings are left out)
+                if op == ('assign_member' if combined else 'assign_struct'):
+                    continue
+                if hidden == 'ctrl':
+                    op = {'read_struct_wire': 'read_struct', 'change_struct_wire': 'write_struct', 'change_partial_wire': 'write_struct'}.get(op, op)
+                elif op == 'change_member_wire' and 'm_' + k == hidden:
+                    op = 'write_member'
             ops.append([op, k, v])
             fired0 = fail['fired']
             try:
@@ -217,12 +234,18 @@ class World:
         if with_read:
             ns['read_rng__idx'] = lambda self: hw.get('idx', self.parameters['rng__idx'].value)
         cls = type('FMod', (C.Module,), ns)
-        node = self.node_for({'f': {'cls': cls, 'description': 'x'}})
+        fcfg = {'cls': cls, 'description': 'x'}
+        hidden_idx = rng.random() < 0.25
+        if hidden_idx:
+            # the index is hidden from the clients by the configuration: the float still follows it
+            fcfg['rng__idx'] = {'export': False}
+            r.count('floatenum_sequences_with_hidden_index')
+        node = self.node_for({'f': fcfg})
         m = node.secnode.modules['f']
         conn = self.nodes.Conn()
         node.dispatcher.add_connection(conn)
         vdict = m.parameters['rng_'].valuedict
-        case = {'sub': 'floatenum', 'labels': repr(labels), 'unit': unit, 'coercing_hardware': coerce, 'ops': []}
+        case = {'sub': 'floatenum', 'labels': repr(labels), 'unit': unit, 'coercing_hardware': coerce, 'hidden_index': hidden_idx, 'ops': []}
         if coerce:
             r.count('floatenum_sequences_with_coercing_hardware')
         touched = False
@@ -232,6 +255,8 @@ class World:
             lo, hi = min(vdict.values()), max(vdict.values())
             v = rng.choice([vdict[idx], vdict[idx] * 1.3, lo, hi, (lo + hi) / 2, lo + (hi - lo) * rng.random()])
             v = min(max(v, lo), hi)
+            if hidden_idx and op == 'change_idx_wire':
+                op = 'write_idx'
             case['ops'].append([op, idx, v])
             try:
                 if op == 'write_float':
@@ -256,7 +281,7 @@ class World:
             cur = int(m.rng__idx)
             shown = m.parameters['rng_'].value
             if m.rng_ != vdict[cur] or (touched and shown != vdict[cur]):
-                r.violation(f'C18/floatenum/value-not-of-current-index/{op}',
+                r.violation(f'C18/floatenum/value-not-of-current-index/{op}' + ('/with-hidden-index' if hidden_idx else ''),
                             f'index {cur} -> {vdict[cur]} but parameter shows {m.rng_} / cache {shown}', case)
                 break
             if op in ('write_float', 'change_float_wire') and not coerce:
